@@ -165,6 +165,9 @@ def run(res, tier, seed, replay):
             for r in rcs:
                 f.write(json.dumps(r) + "\n")
         extra = " " + os.path.join(rd, "replay_in.jsonl")
+    corpus = os.path.join(vlib.ROOT, "corpus", PID, "recipes.jsonl")
+    if not replay and os.path.exists(corpus):
+        extra = " - " + corpus     # regression recipes run right after the built-in witnesses
     rc, out = vlib.sh(f"{vlib.hbin('c11')} {tier} {seed} {cases_p} {impl_p}{extra}", timeout=3000)
     if rc != 0:
         res.violation(dict(kind="machinery-error", what="harness run failed", log=out[-3000:]), no_input=True)
@@ -377,7 +380,7 @@ def run(res, tier, seed, replay):
             else:
                 prop_fail.append((idx, "resolution-time and stand-alone verdicts differ (resolution: %s, stand-alone: "
                                        "%s) and the difference is not a known class" % (v1, v2[:200]), i, m))
-        if len(samples) < 4 and rcp["perturbation"] != "none" and idx > 8:
+        if len(samples) < 4 and rcp["perturbation"] != "none" and idx > 30:
             samples.append(dict(perturbation=rcp["perturbation"], document=json.loads(srcs[idx])["document"],
                                 world=json.loads(srcs[idx])["world_wit"][-1][1], resolution=v1,
                                 standalone=v2 if v2 == "OK" else "ERR", reference_subtype=v3))
@@ -399,7 +402,13 @@ def run(res, tier, seed, replay):
             prop_fail.append((idx, "resolution-time and stand-alone verdicts differ (class of finding %s, which is "
                                    "marked %s)" % (kid, entry.get("status")), impl[idx], model[idx]))
 
+    fail_tags = {}
+    for idx, _w, _i, _m in prop_fail:
+        rj = json.loads(recipes[idx])
+        t = rj["Pair"]["perturbation"] if "Pair" in rj else "api"
+        fail_tags[t] = fail_tags.get(t, 0) + 1
     res.coverage.update(dict(
+        spec_failure_tags=fail_tags,
         correspondence_cases=len(cases) - stats["skipped"], disagreements=len(disagreements),
         spec_failures_on_impl=len(prop_fail), evaluations=len(cases), distinct_nontrivial=len(nontrivial),
         known_class_pairs={k: len(v) for k, v in known_hits.items()}, stats=stats,
